@@ -51,6 +51,8 @@ package at
 //@   ensures result != nil
 //@ func (*selectForUpdateExecutor).buildSelectPKSQL
 //@   prop C03
+//@   local pks []string
+//@   local fields []*ast.SelectField
 //@   requires stmt != nil && meta != nil
 //@   ensures text-of-the-derived-query: result1 == nil ==> called("(*SelectStmt).Restore#1")
 //@   at call (*SelectStmt).Restore#1: assert selects-the-same-rows-as-the-business-select: arg_self.From == stmt.From && arg_self.Where == stmt.Where && arg_self.OrderBy == stmt.OrderBy && arg_self.Limit == stmt.Limit && arg_self.TableHints == stmt.TableHints
@@ -87,6 +89,8 @@ package at
 //@   ensures true
 //@ func (*baseExecutor).buildLockKey
 //@   prop C03
+//@   local lockKeys bytes.Buffer
+//@   local keys []string
 //@   requires records != nil
 //@   let r := some(int, "r")
 //@   let c := some(int, "c")
